@@ -76,6 +76,29 @@ def build(spec: dict):
     """a REAL KineticTransitionNetwork from a spec {E, coords, ts=[(u, v, e, coords)]}"""
     from topsearch.data.kinetic_transition_network import KineticTransitionNetwork
     k = KineticTransitionNetwork()
+    order = spec.get("file_order")
+    if order and len(order) == len(spec["E"]) and len(spec["E"]) >= 1:
+        # the same network read from files whose rows are not listed in index order (every row of min.data carries its own
+        # index; a file sorted by energy or edited by hand is a legitimate input of read_network)
+        import tempfile
+        d = tempfile.mkdtemp(dir=".") + "/"
+        dim = len(spec["coords"][0])
+        with open(d + "min.data", "w") as f:
+            f.writelines(f"{i} {float(spec['E'][i])!r}\n" for i in order)
+        with open(d + "min.coords", "w") as f:
+            f.writelines(" ".join(repr(float(x)) for x in spec["coords"][i]) + "\n" for i in order)
+        with open(d + "ts.data", "w") as f:
+            f.writelines(f"{int(u)} {int(v)} {float(e)!r}\n" for u, v, e, _ in spec["ts"])
+        with open(d + "ts.coords", "w") as f:
+            f.writelines(" ".join(repr(float(x)) for x in (list(c) + [0.0] * dim)[:dim]) + "\n" for _, _, _, c in spec["ts"])
+        open(d + "pairlist", "w").close()
+        import warnings
+        with warnings.catch_warnings():
+            warnings.simplefilter("ignore")
+            k.read_network(text_path=d)
+        import shutil
+        shutil.rmtree(d, ignore_errors=True)
+        return k
     for c, e in zip(spec["coords"], spec["E"]):
         k.add_minimum(np.array(c, dtype=float), float(e))
     for u, v, e, c in spec["ts"]:
@@ -445,8 +468,17 @@ def pred_hierarchy(spec, start, finish, levels) -> tuple | None:
     from topsearch.plotting import disconnectivity as dc
     n = len(spec["E"])
     k = build(spec)
+    edges_before = sorted((min(int(u), int(v)), max(int(u), int(v)), float(k.get_ts_energy(u, v))) for u, v in k.G.edges())
     cg = dc.get_connectivity_graph(k, start, finish, levels)
     rep = {"pred": "hierarchy", "spec": spec, "start": start, "finish": finish, "levels": levels}
+    # the hierarchy is computed on a copy: the network handed in is the network the next analysis (another window,
+    # unconnected_component, disconnected_height) works on
+    edges_after = sorted((min(int(u), int(v)), max(int(u), int(v)), float(k.get_ts_energy(u, v))) for u, v in k.G.edges())
+    if edges_after != edges_before or k.G.number_of_nodes() != n:
+        return ("get_connectivity_graph:changes-the-network", f"window [{finish}, {start}] with {levels} levels: the network "
+                f"handed in had {len(edges_before)} transition states and has {len(edges_after)} after the call, so every later "
+                "analysis of it (connected components, disconnection heights, another window) is about a different landscape",
+                rep)
     for lv in range(levels + 1):
         groups = [(node, {int(x) for x in d["members"]}) for node, d in cg.nodes(data=True) if d["level"] == lv]
         allm = sorted(x for _, g in groups for x in g)
@@ -602,6 +634,10 @@ def predicates(ctx: Ctx) -> None:
             off = rng.choice([-7400.0, 52000.0, 3.0e5, -2.5e6])
             spec = {"E": [e + off for e in spec["E"]], "coords": spec["coords"],
                     "ts": [[u, v, e + off, c] for u, v, e, c in spec["ts"]]}
+        if it % 4 == 1 and len(spec["E"]) >= 2:
+            perm = list(range(len(spec["E"])))
+            rng.shuffle(perm)
+            spec = dict(spec, file_order=perm)
         nn = len(spec["E"])
         ts_e = [t[2] for t in spec["ts"]]
         top = max(ts_e) if ts_e else 1.0
